@@ -776,6 +776,40 @@ def r17_one_definition_of_line_end(ctx, rule="C09.R17"):
     ctx.require(rule, 1)
 
 
+_RAW_KEYED = re.compile(r"(HashSet|HashMap|BTreeMap|BTreeSet)<(&(?:'\w+ )?(?:mut )?str|std::string::String|&(?:'\w+ )?std::string::String)\b")
+
+
+def r18_no_container_keyed_by_raw_text(ctx, rule="C09.R18"):
+    """`identifiers differing only in letter case are the same name`: wherever names are collected in a set or a
+    map, the key type is one of the folding types (CaseInsensitiveString, BareName, Name ...), whose Hash / Eq
+    ignore case (R1).  A `HashSet<&str>` filled from `name.as_str()` compares the spelling: `Code` and `CODE` are
+    two entries, a duplicate TYPE element goes unnoticed.  No local of the parser, the checker, the generator / VM
+    or the common crate has a set / map type keyed by `&str` or `String`."""
+    for ty, want in (("std::collections::HashSet<&str>", True), ("std::collections::HashMap<std::string::String, i32>", True),
+                     ("std::collections::HashMap<rusty_common::CaseInsensitiveString, i32>", False),
+                     ("std::collections::HashSet<&'a str, S>", True)):
+        if bool(_RAW_KEYED.search(ty)) != want:
+            raise CheckError("%s: detector self-test failed on %s" % (rule, ty))
+    prog = ctx.prog
+    n = 0
+    bad = {}
+    for f in sorted(prog.fns.values(), key=lambda f: f.id):
+        if f.crate not in ("rusty_parser", "rusty_linter", "rusty_basic", "rusty_common", "rusty_variant") or f.body is None:
+            continue
+        n += 1
+        for l in f.body.locals:
+            m = _RAW_KEYED.search(l["ty"])
+            if m:
+                owner = prog.enclosing_fn(f) or f
+                bad.setdefault(owner.path.split("::", 1)[1], (m.group(0), f.loc))
+    for name, (ty, loc) in sorted(bad.items()):
+        ctx.violation(rule, "%s:%s" % (rule, name), loc,
+                      "%s keeps text in a container keyed by its raw spelling (%s..>): two spellings of one identifier are "
+                      "two keys - names must be keyed by a folding type" % (name, ty))
+    ctx.ok(rule, rule + ":scan", "workspace", "%d functions, no set / map keyed by raw text; detector self-test passed" % n)
+    ctx.require(rule, 1)
+
+
 def run(ctx):
     common.install(ctx)
     r1_folding_pair(ctx)
@@ -797,3 +831,4 @@ def run(ctx):
     r15_line_end_is_followed_by_blank_skipping(ctx)
     r16_label_is_name_then_colon(ctx)
     r17_one_definition_of_line_end(ctx)
+    r18_no_container_keyed_by_raw_text(ctx)
